@@ -621,6 +621,47 @@ theorem ambient_witness_unfixed_f12 : ¬ StrictExactFor { Fixes.all with f12 := 
   have h1 := (h f12Policies "istio-system" wlA 80 (by decide) (by decide)).mpr (by decide)
   revert h1; ambient_eval
 
+/-! ## The three kinds of workloads of the ambient index (`buildWorkloadPolicies` callers) -/
+
+/-- The statement for the workload builders: whatever kind of workload, ztunnel rejects plaintext on a port iff
+    the effective mode for the workload's OWN labels is STRICT. -/
+def WorkloadStrictExactFor (fx : Fixes) : Prop :=
+  ∀ (pas : List PA) (root : String) (k : WKind) (ns : String) (labels mlabels : Labels) (port : Nat),
+    UniqueKeys pas → AllPortsNodup pas →
+    (workloadDeniedG fx root pas k ns labels mlabels false port = true ↔
+      effectiveMode pas root { ns := ns, labels := ownLabels k labels mlabels } port = .strict)
+
+theorem workloadLabelsFor_all (k : WKind) (labels mlabels : Labels) :
+    workloadLabelsFor Fixes.all k labels mlabels = ownLabels k labels mlabels := by
+  cases k
+  · rfl
+  · cases labels with
+    | nil => simp [workloadLabelsFor, ownLabels, mergeLabels]
+    | cons a l => simp [workloadLabelsFor, ownLabels]
+  · rfl
+
+/-- **ambient_workload_strict_exact.**  Pods, WorkloadEntries and inline ServiceEntry endpoints get the policies of
+    their own labels (after 4999010, F15). -/
+theorem ambient_workload_strict_exact : WorkloadStrictExactFor Fixes.all := by
+  intro pas root k ns labels mlabels port hu hp
+  have := ambient_strict_exact hu hp root { ns := ns, labels := ownLabels k labels mlabels } port
+  unfold workloadDeniedG workloadKeysG
+  rw [workloadLabelsFor_all]
+  exact this
+
+/-- F15: a STRICT selector policy for app=a; a ServiceEntry without metadata labels, its inline endpoint app=a. -/
+def f15Policies : List PA :=
+  [ { name := "wl", ns := "ns1", time := 200, selector := some [("app", "a")], mtls := .strict, ports := [] } ]
+
+/-- F15 (before 4999010): the inline endpoint of a ServiceEntry was matched with the ServiceEntry's metadata
+    labels: the STRICT policy selecting the endpoint's labels is not attached, plaintext is accepted. -/
+theorem ambient_witness_unfixed_f15 : ¬ WorkloadStrictExactFor { Fixes.all with f15 := false } := by
+  intro h
+  have h1 := (h f15Policies "istio-system" .serviceEntryEndpoint "ns1" [("app", "a")] [] 80 (by decide) (by decide)).mpr (by decide)
+  revert h1
+  simp [workloadDeniedG, workloadKeysG, workloadLabelsFor, f15Policies]
+  ambient_eval
+
 /-! ## Non-vacuity -/
 
 example : UniqueKeys f10Policies ∧ AllPortsNodup f10Policies := by decide
